@@ -36,6 +36,9 @@ pub struct HelloSpec {
     pub grease: bool,
     /// pad the extensions block so the whole record is about this long (0 = no padding)
     pub target_len: usize,
+    /// handshake messages coalesced into the same record ahead of the ClientHello (RFC 5246 6.2.1 allows
+    /// several messages of one content type per record): this many empty HelloRequest messages
+    pub coalesced_before: usize,
 }
 
 pub fn random_spec(r: &mut Rng, max_len: usize) -> HelloSpec {
@@ -66,6 +69,7 @@ pub fn random_spec(r: &mut Rng, max_len: usize) -> HelloSpec {
         supported_versions: r.chance(2, 3),
         grease: r.chance(1, 2),
         target_len,
+        coalesced_before: if r.chance(1, 12) { r.urange(1, 3) } else { 0 },
     }
 }
 
@@ -203,14 +207,18 @@ pub fn client_hello(r: &mut Rng, s: &HelloSpec) -> Vec<u8> {
         }
     }
     // clamp so that the record length fits 16 bits
-    let max_eb = 65535usize.saturating_sub(4 + body.len() + 2);
+    let max_eb = 65535usize.saturating_sub(4 + body.len() + 2 + 4 * s.coalesced_before);
     if eb.len() > max_eb {
         eb.truncate(0);
     }
     put16(&mut body, eb.len());
     body.extend_from_slice(&eb);
 
-    let mut hs = vec![1u8];
+    let mut hs = vec![];
+    for _ in 0..s.coalesced_before {
+        hs.extend_from_slice(&[0u8, 0, 0, 0]);
+    }
+    hs.push(1u8);
     hs.push((body.len() >> 16) as u8);
     hs.push((body.len() >> 8) as u8);
     hs.push(body.len() as u8);
